@@ -92,6 +92,7 @@ type result struct {
 	Fails      []fail         `json:"fails"`
 	Lin        *linCase       `json:"lin,omitempty"`
 	Keys       int            `json:"keys"`
+	KeyNames   []string       `json:"key_names"`
 	SharedKeys int            `json:"shared_keys"`
 	Millis     int64          `json:"millis"`
 }
@@ -242,8 +243,15 @@ func buildScenario(kind string, r *rng, tier string) *scenario {
 		nops = nops/2 + 4
 	}
 	if strings.HasPrefix(kind, "w-") {
-		sc.g = 2 + r.intn(5)
+		sc.g = 3 + r.intn(5)
 		nops = 40
+		sc.procs = 8
+	}
+	if kind == "sheetrow" {
+		if sc.g < 4 {
+			sc.g = 4
+		}
+		sc.procs = 8
 	}
 	if kind == "mix" && tier != "thorough" {
 		nops = nops/2 + 4
@@ -283,7 +291,7 @@ func buildScenario(kind string, r *rng, tier string) *scenario {
 				if i == 0 {
 					kindSel = []string{"dvadd", "colvis", "setval", "setval", "colw", "getval"}[t%6]
 				} else {
-					kindSel = pickW(w, "dvadd", 15, "colvis", 10, "setval", 60, "getval", 15)
+					kindSel = pickW(w, "dvadd", 15, "colvis", 10, "setval", 55, "getval", 12, "addpic", 8)
 				}
 			case "sheetrow":
 				kindSel = pickW(w, "sheetrow", 70, "setval", 20, "getval", 10)
@@ -363,12 +371,19 @@ func buildScenario(kind string, r *rng, tier string) *scenario {
 				}
 			case "setstyle":
 				// style cells live in their own block (rows 40..): column by sharing class
+				if t >= len(pool) {
+					private = true
+				}
 				sk := r.intn(4)
 				if private {
 					sk = 8 + t*4 + r.intn(4)
 				}
 				c, _ := xl.CoordinatesToCellName(7+sk%2, 1+sk/2) // columns G, H
-				prog = append(prog, op{Fn: "SetCellStyle", Kind: "setstyle", Sheet: sheet, Cell: c, Style: r.intn(len(pool)), ID: g.id(), Key: "s|" + sheet + "|" + c})
+				st := r.intn(len(pool))
+				if !private {
+					st = t % len(pool) // on a contended key every goroutine writes its own value
+				}
+				prog = append(prog, op{Fn: "SetCellStyle", Kind: "setstyle", Sheet: sheet, Cell: c, Style: st, ID: g.id(), Key: "s|" + sheet + "|" + c})
 			case "colw":
 				col := colFor(r, t, private, 0)
 				g.uniq++
@@ -385,8 +400,15 @@ func buildScenario(kind string, r *rng, tier string) *scenario {
 			case "getcolvis":
 				prog = append(prog, op{Fn: "GetColVisible", Kind: "getcolvis", Sheet: sheet, Cell: colFor(r, t, true, 1)})
 			case "colstyle":
+				if t >= len(pool) {
+					private = true
+				}
 				col := colFor(r, t, private, 2)
-				prog = append(prog, op{Fn: "SetColStyle", Kind: "colstyle", Sheet: sheet, Cell: col, Style: r.intn(len(pool)), ID: g.id(), Key: "y|" + sheet + "|" + col})
+				st := r.intn(len(pool))
+				if !private {
+					st = t % len(pool)
+				}
+				prog = append(prog, op{Fn: "SetColStyle", Kind: "colstyle", Sheet: sheet, Cell: col, Style: st, ID: g.id(), Key: "y|" + sheet + "|" + col})
 			case "getcolstyle":
 				prog = append(prog, op{Fn: "GetColStyle", Kind: "getcolstyle", Sheet: sheet, Cell: colFor(r, t, private, 2)})
 			case "dvadd":
@@ -808,6 +830,21 @@ wait:
 	for i, k := range keys {
 		keyIdx[k] = i
 	}
+	// value ids: two writes that leave the same observation on a key are the same value
+	expOf := func(o *op) string {
+		if strings.HasPrefix(o.Key, "s|") || strings.HasPrefix(o.Key, "y|") {
+			return strconv.Itoa(styleIDs[o.Style])
+		}
+		return canonNum(o.Obs)
+	}
+	vids := map[string]int{}
+	vid := func(key, exp string) int {
+		k := key + "\x00" + exp
+		if _, ok := vids[k]; !ok {
+			vids[k] = len(vids) + 1
+		}
+		return vids[k]
+	}
 	lin := &linCase{Progs: make([][][2]int, sc.g)}
 	for t := range sc.progs {
 		for i := range sc.progs[t] {
@@ -817,17 +854,19 @@ wait:
 			}
 			switch o.Kind {
 			case "setval", "typed", "colw", "colvis", "setstyle", "colstyle":
-				lin.Progs[t] = append(lin.Progs[t], [2]int{keyIdx[o.Key], o.ID})
+				lin.Progs[t] = append(lin.Progs[t], [2]int{keyIdx[o.Key], vid(o.Key, expOf(o))})
 			case "sheetrow":
 				col0, row0, _ := xl.CellNameToCoordinates(o.Cell)
 				for j := range o.Row {
 					c, _ := xl.CoordinatesToCellName(col0+j, row0)
-					lin.Progs[t] = append(lin.Progs[t], [2]int{keyIdx["c|"+o.Sheet+"|"+c], o.RowID[j]})
+					key := "c|" + o.Sheet + "|" + c
+					lin.Progs[t] = append(lin.Progs[t], [2]int{keyIdx[key], vid(key, strconv.Itoa(o.Row[j].(int)))})
 				}
 			}
 		}
 	}
 	res.Keys = len(keys)
+	res.KeyNames = keys
 	for _, k := range keys {
 		p := strings.SplitN(k, "|", 3)
 		var obs string
@@ -898,7 +937,7 @@ wait:
 			addFail(sig+":"+p[0], fmt.Sprintf("%s holds %q; last writes of its %d writer(s): %q", k, obs, len(ts), cands))
 			continue
 		}
-		lin.Final = append(lin.Final, [2]int{keyIdx[k], winner})
+		lin.Final = append(lin.Final, [2]int{keyIdx[k], vid(k, canonNum(obs))})
 		// a time / duration value must come with a date or time number format
 		if p[0] == "c" {
 			for _, t := range ts {
@@ -1050,7 +1089,7 @@ func main() {
 	flag.Parse()
 	total := *n
 	if total == 0 {
-		total = 52
+		total = 48
 		if *tier == "thorough" {
 			total = 700
 		}
